@@ -176,6 +176,7 @@ func (m *Muxer) sendError(err error) {
 	case m.errorChan <- err:
 	default:
 	}
+	m.verifEv("Err", 0, false, 0, 0, err.Error(), nil)
 	// Stop the muxer on any error
 	m.Stop()
 }
@@ -209,6 +210,7 @@ func (m *Muxer) RegisterProtocol(
 	}
 	m.protocolSenders[protocolId][protocolRole] = senderChan
 	m.protocolReceivers[protocolId][protocolRole] = receiverChan
+	m.verifEv("Reg", protocolId, false, 0, protocolRole, "", nil)
 	m.protocolReceiversMutex.Unlock()
 	// Start Goroutine to handle outbound messages
 	m.waitGroup.Go(func() {
@@ -260,6 +262,7 @@ func (m *Muxer) UnregisterProtocol(
 
 	// Remove mapping
 	delete(protocolRoles, protocolRole)
+	m.verifEv("Unreg", protocolId, false, 0, protocolRole, "", nil)
 }
 
 // Send takes a populated Segment and writes it to the connection. A mutex is used to prevent more than
@@ -284,6 +287,7 @@ func (m *Muxer) Send(msg *Segment) error {
 	if err != nil {
 		return err
 	}
+	m.verifEv("Send", msg.GetProtocolId(), msg.IsResponse(), len(msg.Payload), 0, "", msg.Payload)
 	return nil
 }
 
@@ -291,6 +295,7 @@ func (m *Muxer) Send(msg *Segment) error {
 // protocol
 func (m *Muxer) readLoop() {
 	defer func() {
+		m.verifEv("Exit", 0, false, 0, 0, "", nil)
 		m.waitGroup.Done()
 		// Close receiver channels
 		m.protocolReceiversMutex.Lock()
@@ -345,6 +350,7 @@ func (m *Muxer) readLoop() {
 			}
 			return
 		}
+		m.verifEv("RecvHdr", header.GetProtocolId(), header.IsResponse(), int(header.PayloadLength), 0, "", nil)
 		// Check for zero-byte payload
 		// This prevents certain types of DoS attacks
 		if header.PayloadLength == 0 {
@@ -375,6 +381,7 @@ func (m *Muxer) readLoop() {
 			}
 			return
 		}
+		m.verifEv("Recv", msg.GetProtocolId(), msg.IsResponse(), len(msg.Payload), 0, "", msg.Payload)
 		// Check for message from initiator when we're not configured as a responder
 		if DiffusionMode(m.diffusionMode.Load()) == DiffusionModeInitiator && !msg.IsResponse() {
 			m.sendError(
@@ -426,9 +433,11 @@ func (m *Muxer) readLoop() {
 			return
 		}
 
+		m.verifEv("Route", msg.GetProtocolId(), msg.IsResponse(), len(msg.Payload), protocolRole, "", nil)
 		recvChan.mu.Lock()
 		if recvChan.ch == nil {
 			recvChan.mu.Unlock()
+			m.verifEv("Drop", msg.GetProtocolId(), msg.IsResponse(), len(msg.Payload), protocolRole, "receiver closed", nil)
 			return
 		}
 
@@ -437,6 +446,7 @@ func (m *Muxer) readLoop() {
 			recvChan.mu.Unlock()
 			return
 		case recvChan.ch <- msg:
+			m.verifEv("Deliver", msg.GetProtocolId(), msg.IsResponse(), len(msg.Payload), protocolRole, "", nil)
 			recvChan.mu.Unlock()
 		}
 	}
